@@ -24,7 +24,7 @@ from gens.jose import ALL_JWS
 from ref import jws as rjws, jwe as rjwe, b64 as rb, keys as rk, selftest
 
 LEVEL = "exploration"
-RULE = ("(a) operations from a pool of 54 (sign/verify HS256 with two different keys, ES256, EdDSA, RS256 compact and JSON, key-set signing "
+RULE = ("(a) operations from a pool of 59 (sign/verify HS256 with two different keys, ES256, EdDSA, RS256 compact and JSON, key-set signing "
         "with random pick, A128KW / ECDH-ES / dir encrypt and decrypt, jwt encode/decode, thumbprint, ensure_kid, KeySet([...]), "
         "KeySet.as_dict, public export, PEM export, per-call allow-lists, caller registries, PBES2 with the right / a wrong password, keys carrying use / key_ops) run pairwise in two threads over shared Key / KeySet / registry objects rebuilt from "
         "stored material for every schedule (lazy initialisation is raced every time); the tracer switches threads only at the "
@@ -79,9 +79,10 @@ def material():
     tok["hs512"] = rjws.make_compact(b'{"alg":"HS512"}', b"payload-512", "HS512", ref["oct1"])
     tok["jwt"] = rjws.make_compact(b'{"alg":"HS256","typ":"JWT"}', b'{"sub":"alice","n":1}', "HS256", ref["oct1"])
 
-    def jwe_tok(alg, keyname, enc="A128GCM", text=b"secret text"):
+    def jwe_tok(alg, keyname, enc="A128GCM", text=b"secret text", sender=None):
         plan = {"ser": "compact", "enc": enc, "zip": None, "plaintext_hex": text.hex(), "aad_hex": None, "protected": {"alg": alg, "enc": enc}, "unprotected": None,
-                "recipients": [{"alg": alg, "key": gk.key_to_record(ref[keyname]), "header": None, "kid": None}], "sender": None, "place": "protected"}
+                "recipients": [{"alg": alg, "key": gk.key_to_record(ref[keyname]), "header": None, "kid": None}],
+                "sender": gk.key_to_record(ref[sender]) if sender else None, "place": "protected"}
         return jweplan.ref_encrypt(plan, 7, ("canonical", 0))[0]
     tok["kw"] = jwe_tok("A128KW", "oct16")
     tok["dir"] = jwe_tok("dir", "oct16")
@@ -90,6 +91,9 @@ def material():
     tok["kw_cbc"] = jwe_tok("A128KW", "oct16", "A128CBC-HS256")
     tok["kw_c20p"] = jwe_tok("A128KW", "oct16", "C20P")
     # second messages with other content under the same keys: a call that returns the other call's data must be visible
+    tok["gcmkw"] = jwe_tok("A128GCMKW", "oct16")
+    tok["1pu_kw"] = jwe_tok("ECDH-1PU+A128KW", "ec", "A128CBC-HS256", sender="ec2")
+    tok["1pu_kw_b"] = jwe_tok("ECDH-1PU+A128KW", "ec", "A128CBC-HS256", b"another message, longer than the first one", sender="ec2")
     tok["kw_b"] = jwe_tok("A128KW", "oct16", "A128GCM", b"another message, longer than the first one")
     tok["kw_cbc_b"] = jwe_tok("A128KW", "oct16", "A128CBC-HS256", b"another message, longer than the first one")
     tok["kw_c20p_b"] = jwe_tok("A128KW", "oct16", "C20P", b"another message, longer than the first one")
@@ -162,10 +166,37 @@ def _ref_verify(tok, keyname, expect_payload):
         return f"invalid({e})"
 
 
-def _ref_decrypt(tok, keyname):
-    m = material()
+FRESH: list = []      # values of produced tokens that must be fresh per call (content IV, key-wrap IV, epk, PBES2 salt)
+
+
+def _note_fresh(tok):
     try:
-        r = rjwe.decrypt_compact(tok, lambda h: m["ref"][keyname])
+        segs = tok.split(".")
+        h = json.loads(rb.decode(segs[0]))
+        FRESH.append(("iv", segs[2]))
+        for name in ("iv", "p2s"):
+            if isinstance(h.get(name), str):
+                FRESH.append((f"header-{name}", h[name]))
+        if isinstance(h.get("epk"), dict):
+            FRESH.append(("epk", str(h["epk"].get("x"))))
+    except Exception:
+        pass
+
+
+def _fresh_repeats():
+    seen, rep = set(), []
+    for v in list(FRESH):
+        if v in seen:
+            rep.append(v)
+        seen.add(v)
+    return rep
+
+
+def _ref_decrypt(tok, keyname, sender=None):
+    m = material()
+    _note_fresh(tok)
+    try:
+        r = rjwe.decrypt_compact(tok, lambda h: m["ref"][keyname], rk.public_of(m["ref"][sender]) if sender else None)
         return ["valid", r["plaintext"].decode(), tok.split(".")[2]]
     except rjwe.Reject as e:
         return [f"invalid({e})", "", ""]
@@ -376,6 +407,32 @@ def op_decrypt_kw_cbc(G):
     return jwe.decrypt_compact(material()["tok"]["kw_cbc"], G.oct16).plaintext.decode()
 
 
+def op_encrypt_gcmkw(G):
+    from joserfc import jwe
+    return _ref_decrypt(jwe.encrypt_compact({"alg": "A128GCMKW", "enc": "A128GCM"}, b"secret text", G.oct16, algorithms=["A128GCMKW", "A128GCM"]), "oct16")[:2]
+
+
+def op_decrypt_gcmkw(G):
+    from joserfc import jwe
+    return jwe.decrypt_compact(material()["tok"]["gcmkw"], G.oct16, algorithms=["A128GCMKW", "A128GCM"]).plaintext.decode()
+
+
+def op_encrypt_1pu_kw(G):
+    from joserfc import jwe
+    t = jwe.encrypt_compact({"alg": "ECDH-1PU+A128KW", "enc": "A128CBC-HS256"}, b"secret text", G.ecpub, algorithms=["ECDH-1PU+A128KW", "A128CBC-HS256"], sender_key=G.ec2)
+    return _ref_decrypt(t, "ec", "ec2")[:2]
+
+
+def op_decrypt_1pu_kw(G):
+    from joserfc import jwe
+    return jwe.decrypt_compact(material()["tok"]["1pu_kw"], G.ec, algorithms=["ECDH-1PU+A128KW", "A128CBC-HS256"], sender_key=G.ec2).plaintext.decode()
+
+
+def op_decrypt_1pu_kw_b(G):
+    from joserfc import jwe
+    return jwe.decrypt_compact(material()["tok"]["1pu_kw_b"], G.ec, algorithms=["ECDH-1PU+A128KW", "A128CBC-HS256"], sender_key=G.ec2).plaintext.decode()
+
+
 def op_decrypt_kw_b(G):
     from joserfc import jwe
     return jwe.decrypt_compact(material()["tok"]["kw_b"], G.oct16).plaintext.decode()
@@ -481,7 +538,8 @@ OPS = {f.__name__[3:]: f for f in [
     op_ensure_kid, op_export_public, op_export_pem, op_encrypt_kw, op_decrypt_kw, op_decrypt_dir, op_encrypt_ecdh, op_decrypt_ecdh, op_jwt_roundtrip,
     op_verify_disallowed, op_verify_ed_allowed, op_verify_hs256_list, op_verify_hs512_under_hs256_list, op_verify_hs512_list, op_sign_es_list,
     op_decrypt_pbes2_right, op_decrypt_pbes2_wrong, op_verify_hs_registry_and_list, op_verify_es_registry, op_encrypt_kw_cbc, op_decrypt_kw_cbc, op_encrypt_kw_c20p,
-    op_decrypt_kw_c20p, op_decrypt_kw_b, op_decrypt_kw_cbc_b, op_decrypt_kw_c20p_b]}
+    op_decrypt_kw_c20p, op_decrypt_kw_b, op_decrypt_kw_cbc_b, op_decrypt_kw_c20p_b, op_encrypt_gcmkw, op_decrypt_gcmkw, op_encrypt_1pu_kw,
+    op_decrypt_1pu_kw, op_decrypt_1pu_kw_b]}
 # shared, lazily initialised objects an operation touches: pairs sharing one get every single-preemption schedule even in the quick tier
 TOUCH = {"sigkey_first_use_sign": {"ec_sig"}, "sigkey_encrypt_refused": {"ec_sig"}, "sigkey_keyset": {"ec_sig"}, "sigkey_export": {"ec_sig"},
          "encrypt_kw_foreign_header": {"A128GCM", "A128KW"}, "read_kid": {"ec", "ed"}, "sign_es": {"ec"}, "verify_es_private_obj": {"ec"}, "keyset_new": {"ec", "ed"}, "keyset_sign_pick": {"ec", "oct2"}, "thumbprint": {"ec", "ed", "oct1"},
@@ -497,14 +555,17 @@ TOUCH = {"sigkey_first_use_sign": {"ec_sig"}, "sigkey_encrypt_refused": {"ec_sig
          "verify_hs_registry_and_list": {"reg_jws"}, "verify_rs": {"reg_jws"}, "verify_es_registry": {"reg_jws"},
          "encrypt_kw_cbc": {"A128CBC-HS256", "A128KW"}, "decrypt_kw_cbc": {"A128CBC-HS256", "A128KW"},
          "encrypt_kw_c20p": {"C20P", "A128KW"}, "decrypt_kw_c20p": {"C20P", "A128KW"},
-         "decrypt_kw_b": {"A128GCM", "A128KW"}, "decrypt_kw_cbc_b": {"A128CBC-HS256", "A128KW"}, "decrypt_kw_c20p_b": {"C20P", "A128KW"}}
+         "decrypt_kw_b": {"A128GCM", "A128KW"}, "decrypt_kw_cbc_b": {"A128CBC-HS256", "A128KW"}, "decrypt_kw_c20p_b": {"C20P", "A128KW"},
+         "encrypt_gcmkw": {"A128GCMKW", "A128GCM"}, "decrypt_gcmkw": {"A128GCMKW", "A128GCM"},
+         "encrypt_1pu_kw": {"ECDH-1PU+A128KW", "A128CBC-HS256"}, "decrypt_1pu_kw": {"ECDH-1PU+A128KW", "A128CBC-HS256"},
+         "decrypt_1pu_kw_b": {"ECDH-1PU+A128KW", "A128CBC-HS256"}}
 CORE = ["sign_hs_k1", "sign_hs_k2", "verify_hs_k1", "verify_hs_wrongkey", "sign_es", "verify_es_private_obj", "keyset_new", "keyset_sign_pick",
         "keyset_verify_kid", "thumbprint", "ensure_kid", "export_public", "encrypt_kw", "decrypt_kw", "encrypt_ecdh", "jwt_roundtrip", "shared_keyset_sign",
         "verify_disallowed", "verify_ed_allowed", "read_kid", "custom_registry_sign", "sign_unregistered_header",
         "encrypt_kw_foreign_header", "sigkey_first_use_sign", "sigkey_encrypt_refused", "sigkey_keyset", "sigkey_export",
         "verify_hs256_list", "verify_hs512_under_hs256_list", "verify_hs512_list", "decrypt_pbes2_right", "decrypt_pbes2_wrong",
         "verify_hs_registry_and_list", "verify_es_registry", "encrypt_kw_cbc", "decrypt_kw_cbc", "decrypt_kw_b", "decrypt_kw_cbc_b",
-        "decrypt_kw_c20p", "decrypt_kw_c20p_b"]
+        "decrypt_kw_c20p", "decrypt_kw_c20p_b", "encrypt_gcmkw", "encrypt_1pu_kw", "decrypt_1pu_kw", "decrypt_1pu_kw_b"]
 
 
 def outcome(fn, G):
@@ -584,6 +645,7 @@ def run_history_seq(seq):
     """Findings of one sequential history on a fresh shared graph: list of [key, text, record]."""
     out = []
     G = Graph(needs(*seq))
+    FRESH.clear()
     for j, name in enumerate(seq):
         got = outcome(OPS[name], G)
         want = isolated(name)
@@ -593,6 +655,8 @@ def run_history_seq(seq):
             break
     for msg in post_state(G):
         out.append([f"C20:shared-state-corrupted:{msg.split(' is ')[0][:50]}", f"after the sequence {seq}: {msg}", {"history": seq}])
+    for kind, v in _fresh_repeats():
+        out.append([f"C20:fresh-value-repeated:{kind}", f"{kind} {v!r} occurs in two tokens produced during the sequence {seq}", {"history": seq}])
     return out
 
 
@@ -731,6 +795,7 @@ def src_prefix():
 def run_schedule(a, b, schedule):
     """Run ops a and b under the schedule. Returns (findings dict, switched?)."""
     G = Graph(needs(a, b))
+    FRESH.clear()
     s = Sched([lambda: outcome(OPS[a], G), lambda: outcome(OPS[b], G)], schedule, SRC or src_prefix())
     res, steps = s.run()
     f = {}
@@ -747,6 +812,8 @@ def run_schedule(a, b, schedule):
                                                                      f"in isolation {json.dumps(isolated(name))[:160]}")
     for msg in post_state(G):
         f[f"C20:shared-state-corrupted:{msg.split(' is ')[0][:50]}"] = f"after {a} || {b}: {msg}"
+    for kind, v in _fresh_repeats():
+        f[f"C20:fresh-value-repeated:{kind}"] = f"{kind} {v!r} occurs in two tokens produced by {a} || {b} and their repetition"
     return f, s.switches > 0, steps
 
 
